@@ -24,6 +24,12 @@ def _strategy(draw):
     # one case in four: every other link removes an atom (the residue graph and the fragments must follow)
     spec = draw(gp.case(max_res=8, min_res=2, link_bias=True, routes=("json",),
                         removal_bias=draw(st.integers(0, 3)) == 0))
+    if len(spec["graph"]["edges"]) >= 2 and draw(st.integers(0, 4)) == 0:
+        # a residue graph in two or more parts (two chains in one molecule type): one or two edges are left out
+        for _ in range(draw(st.integers(1, 2))):
+            if len(spec["graph"]["edges"]) >= 2:
+                spec["graph"]["edges"].pop(draw(st.integers(0, len(spec["graph"]["edges"]) - 1)))
+        spec["graph"]["kind"] = "parts"
     spec["half"] = "gen_params"
     return spec
 
